@@ -54,9 +54,13 @@ ToPersistOK ==
 
 (* run segment *)
 AfterAtt(c) == Persist(Attempt(s, c), c)
+(* R1: the engine's scheduling is C01-C04's subject; here only "not twice" and "dependencies first" (without    *)
+(* which the effect of an attempt is not defined) are demanded, not the one-at-a-time order of the serial      *)
+(* strategy, and not that a component without any observable effect is attempted at all (see RanOK)            *)
+Guard(c) == c \notin s.att /\ Deps(c) \subseteq s.obs
 AttOK ==
     /\ s.pc = "run" /\ Ev.c \in Comp
-    /\ CanAttemptAny(s, Ev.c)
+    /\ Guard(Ev.c)
     /\ LET n == AfterAtt(Ev.c) IN
        /\ Ev.has = HasV(n, Ev.c)
        /\ Rng(Ev.errs) = ErrKinds(n, Ev.c)
@@ -64,12 +68,15 @@ AttOK ==
 
 UserAllows(i) == ~ItemDeniedByUser(s.mf, i)
 MayTouch == {i \in Items : UserAllows(i) /\ \E c \in Impls : s.enabled[c] /\ c \notin SkipSet(s.mf) /\ i \in Rng(ItemsOfImpl(c))}
+(* the run is over: components that were never attempted are completed by the model in canonical order - the  *)
+(* bodies that ran, the deny bookkeeping and (at "finish") the archive must be those of the COMPLETE run        *)
+Full == Complete(s, 1)
 RanOK ==
-    /\ s.pc = "run" /\ s.obs = Comp
-    /\ Rng(Ev.bodies) = s.ran
+    /\ s.pc = "run"
+    /\ Rng(Ev.bodies) = Full.ran
     /\ Rng(Ev.opened) \subseteq MayTouch /\ Rng(Ev.execd) \subseteq MayTouch
-    /\ Rng(Ev.dehy) = s.dehy /\ Ev.foreign_dehy = 0
-    /\ Rng(Ev.specs) = s.bl
+    /\ Rng(Ev.dehy) \subseteq s.toPersist /\ Ev.foreign_dehy = 0
+    /\ Rng(Ev.specs) = Full.bl
 
 DocSet  == {[c |-> d.c, n |-> d.n, err |-> d.err] : d \in Rng(Ev.docs)}
 DataSet == {[path |-> d.path, lines |-> d.lines] : d \in Rng(Ev.data)}
@@ -108,7 +115,7 @@ Apply ==
       [] Ev.ev = "context"   -> s' = CreateContext(s)
       [] Ev.ev = "topersist" -> s' = GetToPersist(s)
       [] Ev.ev = "att"       -> s' = AfterAtt(Ev.c)
-      [] Ev.ev = "ran"       -> s' = EndRun(s)
+      [] Ev.ev = "ran"       -> s' = EndRun(Full)
       [] Ev.ev = "finish"    -> s' = Finish(s)
       [] Ev.ev = "end"       -> UNCHANGED s
       [] OTHER               -> s' = LoadBack(s)
@@ -164,7 +171,6 @@ DiagAtt ==
     ELSE IF "signal" \in Rng(Ev.errs) THEN "ParallelEqualsSerial:datasource-fails-outside-the-main-thread:signal.signal"
     ELSE IF c \in s.att THEN "RunOnce:attempted-twice" \o Strat
     ELSE IF ~(Deps(c) \subseteq s.obs) THEN "RunOrder:dependency-not-attempted-first" \o Strat
-    ELSE IF ~CanAttemptAny(s, c) THEN "RunOrder:sub-graphs-not-one-at-a-time" \o Strat
     ELSE LET n == AfterAtt(c) IN
          IF Ev.has /\ ~HasV(n, c) THEN
              (IF ~s.enabled[c] THEN "DisabledNeverRuns:" \o Kind(c) \o Strat
@@ -181,18 +187,19 @@ DiagAtt ==
 
 DiagRan ==
     IF s.pc # "run" THEN "Phases:order"
-    ELSE IF s.obs # Comp THEN "RunComplete:component-never-attempted" \o Strat
-    ELSE IF Rng(Ev.bodies) # s.ran THEN
-        (IF \E c \in Rng(Ev.bodies) \ s.ran : c \in Comp /\ ~s.enabled[c] THEN "DisabledNeverRuns:body-ran" \o Strat
-         ELSE IF Rng(Ev.bodies) \ s.ran # {} THEN "RunExact:body-ran-unexpectedly" \o Strat
-         ELSE "RunExact:body-not-run" \o Strat)
+    ELSE IF Rng(Ev.bodies) # Full.ran THEN
+        (IF \E c \in Rng(Ev.bodies) \ Full.ran : c \in Comp /\ ~s.enabled[c] THEN "DisabledNeverRuns:body-ran" \o Strat
+         ELSE IF Rng(Ev.bodies) \ Full.ran # {} THEN "RunExact:body-ran-unexpectedly" \o Strat
+         ELSE "RunExact:body-not-run" \o (IF s.obs # Comp THEN ":component-never-attempted" ELSE "") \o Strat)
     ELSE IF ~(Rng(Ev.opened) \subseteq MayTouch) THEN
         (IF \E i \in Rng(Ev.opened) : i \in Items /\ ~UserAllows(i) THEN "DeniedNeverCollected:file-opened" \o Strat
+         ELSE IF \E i \in Rng(Ev.opened) \ MayTouch : \E c \in SkipSet(s.mf) : c \in Impls /\ i \in Rng(ItemsOfImpl(c))
+           THEN "DeniedNeverCollected:file-of-a-denied-component-opened" \o Strat
          ELSE "DisabledNeverRuns:file-opened" \o Strat)
     ELSE IF ~(Rng(Ev.execd) \subseteq MayTouch) THEN
         (IF \E i \in Rng(Ev.execd) : i \in Items /\ ~UserAllows(i) THEN "DeniedNeverCollected:command-executed" \o Strat
          ELSE "DisabledNeverRuns:command-executed" \o Strat)
-    ELSE IF Rng(Ev.dehy) # s.dehy \/ Ev.foreign_dehy # 0 THEN "PersistExact:dehydrate-calls" \o Strat
+    ELSE IF ~(Rng(Ev.dehy) \subseteq s.toPersist) \/ Ev.foreign_dehy # 0 THEN "PersistExact:dehydrated-outside-the-persist-set" \o Strat
     ELSE "Blacklist:blacklisted-specs-after-run" \o Strat
 
 DiagFinish ==
@@ -240,6 +247,8 @@ Diagnose ==
       [] Ev.ev = "ran"       -> DiagRan
       [] Ev.ev = "finish"    -> DiagFinish
       [] Ev.ev = "load"      -> DiagLoad
+      [] Ev.ev = "foreign_enabled" -> "EnabledIsLastMatch:component-outside-the-universe-left-enabled:default-" \o OnOff(s.mf.default)
+      [] Ev.ev = "foreign_exec"    -> "DisabledNeverRuns:command-of-a-component-outside-the-universe" \o Strat
       [] Ev.ev = "escaped"   -> "NoEscape:" \o Ev.exc \o ":in-phase-" \o s.pc
       [] Ev.ev = "hung"      -> "Terminates:collect-does-not-return:" \o s.mf.strategy \o ":max_workers-" \o s.mf.workers \o
                                 (IF \E c \in s.toPersist : s.enabled[c] /\ c \in {"IB", "PB"} THEN ":multi-output-component-persisted" ELSE "")
